@@ -12,8 +12,8 @@ go1.26 build ./... || { echo "BUILD FAILS"; }
 S=$(go1.26 test -vet=off -count=1 ./... 2>&1 | grep -v "no test files" | grep -v "^ok" | head -5)
 if [ -z "$S" ]; then echo "suite_with_change=PASS"; else echo "suite_with_change=FAIL"; echo "$S"; fi
 cp "$DEMO" "$PKG/zz_seed_demo_test.go"
-if go1.26 test -vet=off -count=1 -run 'Demo|Seed|C[0-9][0-9]' "./$PKG" >/tmp/seedconf.out 2>&1; then echo "demo_with_change=PASS(unexpected)"; else echo "demo_with_change=FAIL(expected)"; fi
-tail -3 /tmp/seedconf.out | cut -c1-200
+if go1.26 test -vet=off -count=1 -run 'Demo|Seed|C[0-9][0-9]' "./$PKG" >"$W.out" 2>&1; then echo "demo_with_change=PASS(unexpected)"; else echo "demo_with_change=FAIL(expected)"; fi
+tail -3 "$W.out" | cut -c1-200
 git checkout -q -- . 
-if go1.26 test -vet=off -count=1 -run 'Demo|Seed|C[0-9][0-9]' "./$PKG" >/tmp/seedconf.out 2>&1; then echo "demo_without_change=PASS(expected)"; else echo "demo_without_change=FAIL(unexpected)"; tail -3 /tmp/seedconf.out; fi
-cd /; git -C /repo worktree remove --force "$W/wt"; rm -rf "$W"
+if go1.26 test -vet=off -count=1 -run 'Demo|Seed|C[0-9][0-9]' "./$PKG" >"$W.out" 2>&1; then echo "demo_without_change=PASS(expected)"; else echo "demo_without_change=FAIL(unexpected)"; tail -3 "$W.out"; fi
+cd /; git -C /repo worktree remove --force "$W/wt"; rm -rf "$W" "$W.out"
